@@ -97,8 +97,9 @@ CHECKS = {
         "category": "fault_enumeration",
         "text": "Every single fault of every family (delete any packet, truncate/start the victim at any packet, every subset of "
                 "its key-log lines, randomised secrets, unsupported ServerHello suites, bit flips / overwrites / truncations at "
-                "enumerated byte positions of every packet, plain HTTP on 443, injected UDP datagrams: all strings <=3 over 11 "
-                "symbols and every first byte) applied to each of 10 victim classes captured together with a healthy TLS and a "
+                "enumerated byte positions of every packet, every TLS record header field set to boundary values, plain HTTP on 443, injected UDP "
+                "datagrams: all strings <=3 over 11 symbols, every first byte, and structured QUIC long headers of every type / version / "
+                "connection-ID shape, with and without -a, next to an ordinary and a zero-length-ID bystander) applied to each of 10 victim classes captured together with a healthy TLS and a "
                 "healthy QUIC bystander. Oracle: no abort, strict-valid output, bystanders byte-identical to the fault-free run, "
                 "victim export a prefix (QUIC: in-order subsequence) for information-removing faults.",
         "design_ref": "DESIGN.md section 5, C03",
@@ -109,8 +110,9 @@ CHECKS = {
     "C04": {
         "category": "model_checking",
         "text": "Context-bounded schedule exploration (CHESS-style) where a thread is one connection's packet list and the "
-                "scheduler is the capture order: for all pairs of {TLS1.2, TLS1.3, TLS1.0-CBC, QUIC-GCM, QUIC-ChaCha} under 5 "
-                "endpoint relations (and 5 connection-ID relations for QUIC pairs: distinct, zero-length, prefix) every "
+                "scheduler is the capture order: for all pairs of 8 connection kinds (TLS 1.2/1.3/1.0-CBC/SSL3-RC4, QUIC GCM/ChaCha/split ClientHello/large packet numbers) under 10 "
+                "endpoint relations (same hosts, two servers, 443/44330, v4/v6 incl. numerically equal addresses, crossed hosts, resumed session, a port "
+                "number in two roles, TCP to a QUIC port) and 9 connection-ID relations for QUIC pairs (distinct, zero-length, prefix, equal) every "
                 "order-preserving merge with <=3 context switches (thorough <=5 and all merges for minimal pairs), triples and a "
                 "4-set with unrelated DNS/HTTP traffic, and key-log line permutations. Differential oracle: each flow's output "
                 "packets in the merged run equal those of the capture filtered to that connection.",
@@ -135,7 +137,7 @@ CHECKS = {
         "category": "fault_enumeration",
         "text": "Exhaustive sum sweep on the real checksum routines: for IPv4/IPv6 x TCP/UDP x even/odd length x base payloads a "
                 "16-bit word takes all 65 536 values (every carry/fold boundary, sums of exactly 0x10000, checksums 0x0000/0xffff), "
-                "each packet with the correct checksum and with wrong values, against an independent RFC 1071 receiver test; and "
+                "each packet with the correct checksum and with wrong values (also with link-layer trailers, IPv4 options, IPv6 extension headers), against an independent RFC 1071 receiver test; every data segment damaged and followed by its intact retransmission; and "
                 "all 256 subsets of 8 designated packets of a TLS+QUIC capture corrupted, comparing export(-c) with "
                 "export(without -c) of the capture with those packets removed.",
         "design_ref": "DESIGN.md section 5, C11",
@@ -145,8 +147,8 @@ CHECKS = {
     },
     "C10": {
         "category": "exploration",
-        "text": "Exhaustive product of the declared configuration alphabet: 5 -p lists x 8 -m variants (absent, bare, pairs, "
-                "trailing commas, full map) on a capture with TLS and QUIC connections to 6 server ports at once; the exported "
+        "text": "Exhaustive product of the declared configuration alphabet: 7 -p lists x 14 -m variants (absent, bare, pairs, "
+                "trailing commas, full map, identity pairs, pairs naming a client port, ports 1 and 65535) on a capture with TLS and QUIC connections to 8 server ports at once, two of them from one client endpoint; the exported "
                 "server port, the unchanged client port and the presence/absence of every flow are compared with the documented "
                 "port function.",
         "design_ref": "DESIGN.md section 5, C10",
@@ -156,10 +158,10 @@ CHECKS = {
     },
     "C09": {
         "category": "exploration",
-        "text": "Deviation-bounded exhaustive enumeration (k<=2) of key-delivery variants for four base captures: every line "
+        "text": "Deviation-bounded exhaustive enumeration (k<=2) of key-delivery variants for five base captures (TLS 1.2, TLS 1.3, QUIC, two TLS, two QUIC connections one after the other), little- and big-endian container: every line "
                 "permutation, CRLF / missing final newline, comment / blank / unrelated / duplicate lines at every position, four "
                 "hex-case variants, and every delivery (file, DSB at every packet position, every split over 2-3 DSBs, additional "
-                "empty DSB, every file/DSB split, DSB only without -s from three working directories, re-run through the real "
+                "empty DSB, DSB in front of the interface block, one DSB per connection right before it, every file/DSB split, DSB only without -s from three working directories, re-run through the real "
                 "command line). Oracle: the output file is byte-identical to the base variant's.",
         "design_ref": "DESIGN.md section 5, C09",
         "note": "trusted: our pcapng writer for DSBs; variants beyond two simultaneous deviations are not covered",
@@ -167,8 +169,8 @@ CHECKS = {
     },
     "C12": {
         "category": "exploration",
-        "text": "Deviation-bounded exhaustive enumeration (k<=2) of container variants for four base captures: legacy pcap LE/BE/"
-                "nanosecond with -l, big-endian pcapng, 7 if_tsresol values (powers of 10 and of 2), 3 if_tsoffset values, 6 kinds "
+        "text": "Deviation-bounded exhaustive enumeration (k<=2) of container variants for five base captures (one with snap-cut packets): legacy pcap LE/BE/"
+                "nanosecond with -l, big-endian pcapng, 7 if_tsresol values (powers of 10 and of 2), if_tsoffset values in both option orders, blocks in front of the interface block, 6 kinds "
                 "of unrelated block inserted at every position, option sets on SHB/IDB/EPB - all written by our own writer so that "
                 "every variant denotes exactly the same instants. Oracle: byte-identical output.",
         "design_ref": "DESIGN.md section 5, C12",
@@ -177,11 +179,12 @@ CHECKS = {
     },
     "C18": {
         "category": "exploration",
-        "text": "Fresh-process runs of the real command line for 8 scenarios (QUIC with zero-length, prefix-related and "
-                "NEW_CONNECTION_ID-issued connection IDs, two QUIC connections, TLS, mixed): one run per iteration order of the "
+        "text": "Fresh-process runs of the real command line for 15 scenarios (QUIC with zero-length, prefix-related and "
+                "NEW_CONNECTION_ID-issued connection IDs, two QUIC connections, a duplicated Initial, a Version Negotiation datagram, TLS incl. "
+                "retransmissions, a damaged CBC record, nine connections, mixed): one run per iteration order of the "
                 "connection-ID set that any PYTHONHASHSEED in the scanned range realises (witness seeds), x 3 working directories x "
-                "5 environments; and all 64 ordered pairs run(A);run(B) in one interpreter without state restoration, compared "
-                "with a fresh run(B). Oracle: equal sha256 / equal bytes.",
+                "7 environments x stale output files, with and without -a; and all ordered pairs run(A);run(B) (with and without -a) in one interpreter "
+                "without state restoration, compared with a fresh run(B). Oracle: equal sha256 / equal bytes.",
         "design_ref": "DESIGN.md section 5, C18",
         "note": "trusted: the claim that set iteration order of connection IDs is the only hash-seed dependent seam (argued from the "
                 "source: no other set/dict-order dependent iteration); orders not realised by any scanned seed are not covered",
@@ -189,10 +192,10 @@ CHECKS = {
     },
     "C07": {
         "category": "exploration",
-        "text": "For 43 cipher-state classes x IPv4/IPv6 x three segment sizes (two connections per capture, distinct MACs/IPs/ports, "
+        "text": "For 43 cipher-state classes x IPv4/IPv6 x segment sizes, displaced / merged / full-duplex captures (four connections per capture, two of them between the same IPs over other MACs, distinct ports, "
                 "awkward sub-second timestamps) every payload-carrying output packet is attributed to its TLS record through the "
                 "model's byte ranges and must carry the addresses of its connection oriented sender->receiver and the timestamp of "
-                "an input packet overlapping that record; QUIC default + every 1-deviation scenario likewise per datagram; and all "
+                "an input packet overlapping that record (with -a: added handshake/alert material must travel in its sender's direction); QUIC default + every 1-deviation scenario (incl. nanosecond-close instants) likewise per datagram; and all "
                 "10^6 microsecond values x 6 second values go through the real Reader->float->Writer timestamp path.",
         "design_ref": "DESIGN.md section 5, C07",
         "note": "trusted: the peer models' record/packet byte-range map; layer M drives Reader and Writer as run() does",
@@ -200,9 +203,9 @@ CHECKS = {
     },
     "C08": {
         "category": "fault_enumeration",
-        "text": "All crash points of each history: for 54 TLS captures (9 classes x 6 packetisations incl. records spanning segments, "
-                "coalesced flights, a displaced segment, retransmissions) and 6 QUIC captures (coalescing, key updates, 0-RTT, Retry, "
-                "two flows) the program is run on EVERY prefix 0..N; per connection and direction the export of prefix i must be a "
+        "text": "All crash points of each history: for 72 TLS captures (9 classes x 8 packetisations incl. records spanning segments, "
+                "coalesced flights, a displaced segment, retransmissions, sequence numbers wrapping inside the data) and 8 QUIC captures (coalescing, key updates, 0-RTT, Retry, "
+                "two flows, NAT rebinding) the program is run on EVERY prefix 0..N; per connection and direction the export of prefix i must be a "
                 "prefix of the export of prefix i+1 and of the modelled plaintext; the empty capture must give a valid empty file. "
                 "C05's state graphs assert the same clause in every non-terminal state.",
         "design_ref": "DESIGN.md section 5, C08",
@@ -211,10 +214,11 @@ CHECKS = {
     },
     "C13": {
         "category": "exploration",
-        "text": "Every table suite x valid version (x EtM, x TLS 1.3 handshake secrets), every handshake shape within one deviation "
+        "text": "Every table suite x valid version (x EtM, x TLS 1.3 handshake secrets) ended by closing alerts (per class also by a heartbeat record), full-duplex and "
+                "merged-segment captures per cipher-state class, every handshake shape within one deviation "
                 "for 9 classes, and QUIC default + every 1-deviation scenario are run with and without -a: the (direction, payload) "
-                "sequence without -a must be a subsequence of the one with -a, ClientHello/ServerHello records must appear verbatim "
-                "as packets of their own, and for QUIC every piece of stream data must still appear in order.",
+                "sequence without -a must be a subsequence of the one with -a, what -a adds must not be a piece of an application or other-type record, "
+                "ClientHello/ServerHello records must appear verbatim as packets of their own, and for QUIC every piece of stream data must still appear in order.",
         "design_ref": "DESIGN.md section 5, C13",
         "note": "trusted: peer models; two-deviation shapes are not paired with -a",
         "technique": "exhaustive product (scenario corpus x option) with a subsequence oracle",
